@@ -55,7 +55,7 @@ struct C03 : Scenario {
         Json p = Json::object();
         const bool runkind = run % 2 == 1;
         p["scenario"] = "S-RUN"; p["kind"] = runkind ? "run" : "static";
-        GenOpts o; o.max_steps = tier == "thorough" ? 10 : 7; o.max_actions = runkind ? 3 : 2; o.max_udq = 2; o.restart_safe_conditions = false; o.reparent_groups = true;
+        GenOpts o; o.max_steps = tier == "thorough" ? 10 : 7; o.max_actions = runkind ? 3 : 2; o.max_udq = 2; o.restart_safe_conditions = false; o.reparent_groups = true; o.late_edits = true;
         p["model_seed"] = static_cast<long long>(rng.next() >> 8); p["gen"] = o.to_json(); p["physics_seed"] = static_cast<long long>(rng.next() >> 16);
         p["tail_seed"] = static_cast<long long>(rng.next() >> 8);
         Json ms = Json::array();
@@ -86,6 +86,7 @@ struct C03 : Scenario {
         fs::begin_run(root);
         Model m = generate_model(static_cast<std::uint64_t>(plan.geti("model_seed")), GenOpts::from_json(plan.at("gen")));
         if (plan.has("drops")) apply_drops(m, plan.at("drops"));
+        kw_histogram(m, r.counters);
         const std::string kind = plan.gets("kind", "static");
         const std::string deck = deck_text(m);
         fs::note("deck", deck);
